@@ -5,6 +5,7 @@
    barriers, a flood that uses up the whole width behind a barrier followed by a sync reader and a barrier). *)
 From Coq Require Import ZArith Bool List.
 From Verif Require Import Word Gen_consts Gen_dqstate Suspend_proofs Lane_iface.
+From Verif Require Import DqFields CLane CLane_inv CLane_main.
 Import ListNotations.
 Local Open Scope Z_scope.
 
@@ -37,3 +38,56 @@ Example C04_nonvacuous :
     Commit (init_st_plain 4094 + 2 * 2199023255552) 1 /\
   (exists r, f_dispatch_queue_try_reserve_sync_width 0 0 (init_st_plain 4094 + 2199023255552 + 1099511627776) 4094 = NoCommit r []).
 Proof. split; [vm_compute; reflexivity | eexists; vm_compute; reflexivity]. Qed.
+
+
+(* ---------------------------------------------------------------------------------------------------------------
+   The global protocol, over ALL interleavings, for the dq_state word of one concurrent queue of any width
+   W in [2, DISPATCH_QUEUE_WIDTH_MAX] targeting a root queue (model: Model/CLane.v; every dq_state read-modify-write
+   of the model is the body generated from the source, Gen_dqstate).  reach W = the states reachable from the idle
+   queue by any number of threads running dispatch_sync / dispatch_barrier_sync (fast and slow paths),
+   dispatch_async / dispatch_barrier_async, root-queue workers draining the lane and running redirected items.
+   U s = width intervals held by readers (threads between their reservation and _dispatch_lane_non_barrier_complete,
+   redirected items in the root queue, sync waiters that were handed an interval); dw s = intervals owned by the
+   holder of the drain lock. *)
+
+(* the ghost state is a function of the program points *)
+Theorem C04_ghost_is_program_points : forall W s, 2 <= W <= 4094 -> reach W s ->
+  NoDup (holders s) /\
+  (forall t, In t (holders s) <-> (holds (pcs s t) = true \/ grant s t = GReader)) /\
+  (forall t, lockh s = Some t <-> (owns (pcs s t) = true \/ grant s t = GOwner)) /\
+  (forall t, grant s t <> GNone -> waitpc (pcs s t) = true).
+Proof. exact ghost_is_program_points. Qed.
+Print Assumptions C04_ghost_is_program_points.
+
+(* 1. width accounting: in every reachable state the width field (12 width bits + the full bit read as one number)
+   equals 4096 - W + the intervals held + (W - 1 when a barrier is pending); the intervals held stay in [0, 4096], so
+   the field stays in [0, 8191] and never carries into IN_BARRIER; IN_BARRIER is set exactly when a barrier owner
+   exists, and then that owner holds the whole width and nobody else any. *)
+Theorem C04_width_accounting : forall W s, 2 <= W <= 4094 -> reach W s ->
+  let r := dec (st s) in
+  0 <= st s < 18446744073709551616 /\
+  f_wq r = 4096 - W + (U s + dw s) + (W - 1) * f_pb r /\
+  0 <= U s + dw s <= 4096 /\ 0 <= f_wq r <= 8191 /\
+  (f_ib r = 1 <-> bmode s = true) /\
+  (bmode s = true -> exists t, lockh s = Some t /\ f_owner r = t /\ U s = 0 /\ dw s = W /\ f_pb r = 0 /\ f_wq r = 4096) /\
+  (lockh s = None -> dw s = 0 /\ f_owner r = 0 /\ f_ib r = 0) /\
+  f_hi r = 0.
+Proof. exact width_accounting. Qed.
+Print Assumptions C04_width_accounting.
+
+(* 2. exclusion: while a barrier item is in its callout (on the barrier-sync fast path, as a woken barrier waiter, or
+   inline in the drainer), no other item of the queue is in its callout, no reader holds a width interval at all and no
+   redirected item is in flight. *)
+Theorem C04_barrier_excludes : forall W s t, 2 <= W <= 4094 -> reach W s -> in_barrier_callout (pcs s t) = true ->
+  (forall u, in_callout (pcs s u) = true -> u = t) /\ holders s = [] /\ rq s = [] /\ lockh s = Some t.
+Proof. exact barrier_excludes. Qed.
+Print Assumptions C04_barrier_excludes.
+
+(* two readers in their callouts with a barrier parked behind them (PENDING_BARRIER, width field 4095 + 2), and later
+   the barrier in its callout alone: both states are reachable *)
+Example C04_protocol_nonvacuous :
+  (exists s, reach 4 s /\ pcs s 1 = R_incall 0 /\ pcs s 2 = R_incall 1 /\ holders s = [2; 1] /\ pb s = 1 /\
+             map i_bar (lst s) = [true] /\ f_wq (dec (st s)) = 4097) /\
+  (exists s, reach 4 s /\ in_barrier_callout (pcs s 5) = true /\ started s = [2; 1; 0] /\ finished s = [1; 0] /\
+             holders s = [] /\ f_ib (dec (st s)) = 1).
+Proof. exact protocol_nonvacuous. Qed.
